@@ -53,6 +53,9 @@ func HashName(label string, ha uint8, iter uint16, salt string) string {
 // Cover returns true if a name is covered by the NSEC3 record.
 func (rr *NSEC3) Cover(name string) bool {
 	nameHash := HashName(name, rr.Hash, rr.Iterations, rr.Salt)
+	if nameHash == "" { // unknown hash algorithm or malformed salt or name: there is no hash to compare
+		return false
+	}
 	owner := strings.ToUpper(rr.Hdr.Name)
 	labelIndices := Split(owner)
 	if len(labelIndices) < 2 {
@@ -85,6 +88,9 @@ func (rr *NSEC3) Cover(name string) bool {
 // Match returns true if a name matches the NSEC3 record
 func (rr *NSEC3) Match(name string) bool {
 	nameHash := HashName(name, rr.Hash, rr.Iterations, rr.Salt)
+	if nameHash == "" { // unknown hash algorithm or malformed salt or name: there is no hash to compare
+		return false
+	}
 	owner := strings.ToUpper(rr.Hdr.Name)
 	labelIndices := Split(owner)
 	if len(labelIndices) < 2 {
